@@ -476,3 +476,33 @@ pub fn run_with(src: &str, cfg: &RunCfg, setup: impl FnOnce(&mut Context)) -> Tr
     let prints = PRINTS.with(|p| std::mem::take(&mut *p.borrow_mut()));
     Trace { prints, completion }
 }
+
+/// Run and also collect the structured dump of every code block compiled during the run.
+pub fn run_with_dump(src: &str, cfg: &RunCfg) -> (Trace, Vec<boa_engine::verif::BlockDump>) {
+    use std::rc::Rc;
+    let store: Rc<RefCell<Vec<boa_engine::verif::BlockDump>>> = Rc::new(RefCell::new(Vec::new()));
+    let s2 = store.clone();
+    boa_engine::verif::set_codeblock_sink(Some(Box::new(move |d| s2.borrow_mut().push(d))));
+    let t = run(src, cfg);
+    boa_engine::verif::set_codeblock_sink(None);
+    let dumps = std::mem::take(&mut *store.borrow_mut());
+    (t, dumps)
+}
+
+/// Compare two boa traces; returns (signature, detail) when they differ.
+pub fn diff_traces(a_name: &str, a: &Trace, b_name: &str, b: &Trace) -> Option<(String, String)> {
+    if a == b {
+        return None;
+    }
+    let strip = |s: &str| s.split(':').take(2).collect::<Vec<_>>().join(":");
+    let sig = if a.prints != b.prints {
+        let k = a.prints.iter().zip(b.prints.iter()).position(|(x, y)| x != y).unwrap_or(a.prints.len().min(b.prints.len()));
+        let _ = k;
+        let pa = matches!(a.completion, Completion::Panic(_)) || matches!(b.completion, Completion::Panic(_));
+        if pa { format!("prints-differ panic {} / {}", a.completion.render(), b.completion.render()) } else { "prints-differ".to_string() }
+    } else {
+        format!("completion {}={} {}={}", a_name, strip(&a.completion.render()), b_name, strip(&b.completion.render()))
+    };
+    let detail = format!("--- {a_name}\n{}\n--- {b_name}\n{}", a.render(), b.render());
+    Some((sig, detail))
+}
